@@ -154,8 +154,8 @@ struct Runner<T, RDims<E...>, Maker, D...> {
                     case 'x': apply_op5(w.op, v, Bt * c - Ct); break;
                     case 'f': apply_op5(w.op, v, Bf); break;
                     case 'm': ev.run(w.op, v); break;
-                    case 'a': apply_op5(w.op, v, mkview(*A, w.src, rk)); break;
-                    case 'b': apply_op5(w.op, v, mkview(*A, w.src, rk) * c + mkview(*A, w.src2, rk)); break;
+                    case 'a': apply_op5(w.op, v, Maker::src(*A, w.src, rk)); break;
+                    case 'b': apply_op5(w.op, v, Maker::src(*A, w.src, rk) * c + Maker::src(*A, w.src2, rk)); break;
                     default: std::printf(" | FAIL bad-script\n"); std::fflush(stdout); _exit(0);
                     }
                 }
@@ -173,4 +173,6 @@ struct Runner<T, RDims<E...>, Maker, D...> {
 
 #define VWR(T, RD, DD, SEED, SCRIPT) vwr::Runner<T, vw::RDims<VW_UNPACK RD>, vw::DynMaker, VW_UNPACK DD>::go(SCRIPT, SEED)
 #define VWRD(T, RD, DD, SEED, SCRIPT) vwr::Runner<T, vw::RDims<VW_UNPACK RD>, vw::DiagMaker, VW_UNPACK DD>::go(SCRIPT, SEED)
+#define VWRP(T, RD, DD, SEED, SCRIPT) vwr::Runner<T, vw::RDims<VW_UNPACK RD>, vw::MapDynMaker, VW_UNPACK DD>::go(SCRIPT, SEED)
+#define VWRPF(T, RD, DD, FS, SEED, SCRIPT) vwr::Runner<T, vw::RDims<VW_UNPACK RD>, vw::MapFixMaker<VW_UNPACK FS>, VW_UNPACK DD>::go(SCRIPT, SEED)
 #define VWRF(T, RD, DD, FS, SEED, SCRIPT) vwr::Runner<T, vw::RDims<VW_UNPACK RD>, vw::FixMaker<VW_UNPACK FS>, VW_UNPACK DD>::go(SCRIPT, SEED)
